@@ -565,6 +565,9 @@ func checkTDQuoteBody(tdQuoteBody *pb.TDQuoteBody) error {
 			return fmt.Errorf("rtmr%d size is %d bytes. Expected %d bytes", i, len(tdQuoteBody.GetRtmrs()[i]), RtmrSize)
 		}
 	}
+	if len(tdQuoteBody.GetReportData()) != ReportDataSize {
+		return fmt.Errorf("reportData size is %d bytes. Expected %d bytes", len(tdQuoteBody.GetReportData()), ReportDataSize)
+	}
 	return nil
 }
 
